@@ -3,7 +3,7 @@
     queued control frames of every step and the final values of the fields the property is
     about. *)
 From Coq Require Import List ZArith Bool String.
-From V Require Import Gen.Params.
+From V Require Import Gen.Params Lib.Corr Lib.Hex. (* Corr, Hex: needed by the generated case files *)
 From V Require Export StreamsMap.Model.
 Import ListNotations.
 Open Scope Z_scope.
